@@ -361,11 +361,32 @@ def _sessions(case: dict, env: core.Env) -> None:
             except Exception:  # noqa: BLE001
                 pass
             iso.cursor().execute("CREATE TABLE ISO_T (ID INT)")
+            iso.cursor().execute("INSERT INTO ISO_T VALUES (1), (2)")
             try:
                 c0.execute("SELECT * FROM ISO_T")
                 env.witness("C17/sessions/shared-login-sees-isolated-data", "ISO_T visible")
             except Exception:  # noqa: BLE001
                 pass
+            # and a second isolated login (same database and schema names) is isolated from the first one too
+            iso2 = _connect_http(isolated=True, database=f"shr{uid}", schema="sa")
+            try:
+                env.count("cmp_isolated_pair")
+                try:
+                    rows = iso2.cursor().execute("SELECT COUNT(*) FROM ISO_T").fetchall()
+                    env.witness("C17/sessions/isolated-logins-share-data", f"second isolated login reads ISO_T of the first: {rows}")
+                except Exception:  # noqa: BLE001
+                    pass
+                o = core.run_stmt(iso2.cursor(), "CREATE TABLE ISO_T (ID INT, OWNER VARCHAR)")
+                if not o["ok"]:
+                    env.witness("C17/sessions/isolated-logins-share-data", f"second isolated login cannot create its own ISO_T: {o['exc']}")
+                else:
+                    iso2.cursor().execute("INSERT INTO ISO_T VALUES (7, 'seven')")
+                    a = iso.cursor().execute("SELECT * FROM ISO_T ORDER BY 1").fetchall()
+                    b = iso2.cursor().execute("SELECT * FROM ISO_T ORDER BY 1").fetchall()
+                    if a != [(1,), (2,)] or b != [(7, "seven")]:
+                        env.witness("C17/sessions/isolated-logins-share-data", f"first reads {a}, second reads {b}")
+            finally:
+                iso2.close()
         finally:
             iso.close()
         env.nontrivial(("sessions", case["seed"]))
